@@ -83,6 +83,29 @@ fn cmd_selftest(scratch: &str) -> i32 {
         println!("HARNESS-ERROR seam self-test: {}", e);
         return 2;
     }
+    {
+        // canonical rendering of hash containers inside Debug strings (used by the deep projections)
+        #[derive(Debug)]
+        #[allow(dead_code)]
+        struct S {
+            m: std::collections::HashMap<String, Vec<(u8, &'static str)>>,
+            t: &'static str,
+        }
+        let mk = |order: &[usize]| {
+            let keys = ["lv9", "lv2", "def", "a{b", "q\"}"];
+            let mut m = std::collections::HashMap::new();
+            for &i in order {
+                m.insert(keys[i].to_string(), vec![(i as u8, "x, {y}")]);
+            }
+            world::canon_maps(&format!("{:?}", Some(S { m, t: "{z" })))
+        };
+        let a = mk(&[0, 1, 2, 3, 4]);
+        let b = mk(&[4, 2, 0, 3, 1]);
+        if a != b || !a.contains("\"def\": [(2, \"x, {y}\")]") || !a.contains("t: \"{z\"") {
+            println!("HARNESS-ERROR canon_maps self-test: {} vs {}", a, b);
+            return 2;
+        }
+    }
     if let Err(e) = warm_up(0) {
         println!("HARNESS-ERROR warm-up: {}", e);
         return 2;
